@@ -8,7 +8,7 @@ import realcluster
 ID = "C05"
 DRIVER = "cluster"
 MODEL_FILES = ["Model/Base.v", "Model/Parse.v", "Model/Node.v", "Model/Pending.v", "Model/Oplog.v", "Model/Cluster.v"]
-THEOREMS = ["C05_live_replicate_roundtrip", "C05_create_db_roundtrip", "C05_replay_converges", "C05_sync_line_roundtrip_refuted", "C05_catchup_line_not_roundtrip", "C05_catchup_line_numeric_value", "C05_sync_line_multi_word", "C05_sync_line_numeric_first", "C05_incr_sync_covers", "C05_decodable_invariant", "C05_meta_keys_invariant", "C05_incr_sync_only_touched", "C05_incr_sync_only_touched_exact", "C05_incr_sync_one_line_per_key", "C05_incr_sync_order", "C05_covers_example", "C05_create_db_line_kept_example", "C05_stale_line_refuted"]
+THEOREMS = ["C05_live_replicate_roundtrip", "C05_create_db_roundtrip", "C05_replay_converges", "C05_sync_line_roundtrip_refuted", "C05_catchup_line_not_roundtrip", "C05_catchup_line_numeric_value", "C05_sync_line_multi_word", "C05_sync_line_numeric_first", "C05_incr_sync_covers", "C05_decodable_invariant", "C05_meta_keys_invariant", "C05_incr_sync_only_touched", "C05_incr_sync_only_touched_exact", "C05_incr_sync_one_line_per_key", "C05_incr_sync_order", "C05_covers_example", "C05_create_db_line_kept_example", "C05_stale_line_refuted", "C05_full_sync_covers", "C05_full_sync_covers_secure_keys", "C05_full_sync_db_block", "C05_full_sync_only", "C05_full_sync_no_admin", "C05_full_sync_token_line", "C05_full_sync_joiner_has_keys", "C05_full_sync_joiner_needs_primary_link", "C05_full_sync_joiner_one_word_values_lost", "C05_full_sync_example"]
 STRENGTH = {t: "proof-unbounded" for t in THEOREMS}
 RULE = ("primary histories of 1-10 operations over 1-3 databases (strategies none/newer/arbiter; values from an alphabet with "
         "multi-word, numeric-first and empty values; removes of persisted and unpersisted keys; snapshots), then a node with an empty "
